@@ -1091,3 +1091,48 @@ package plenccodec
 //@   ensures[C08] r1 == nil ==> mapconv(r0)
 //@   # keys and values are handed to their codecs as pointers into the map's slots: neither codec may expect a map itself
 //@   ensures[C08] r1 == nil ==> called_CodecBuilder_CodecForTypeRegistry && !mapconv(call_CodecBuilder_CodecForTypeRegistry_r0)
+
+//@ # ---- slices of length-delimited elements: count, then every element behind its own length (C02, C05) ----
+//@ # psum(i) is the encoded size of the first i elements, each with its length prefix (ghost, defined by its
+//@ # recurrence under wfsum()); element i lives at h.Data + i*EltSize and is encoded without a tag.
+//@ func plenccodec.WTLengthSliceWrapper.size
+//@   safety C05
+//@   assigns nothing
+//@   assume 0 <= loadi64(ptr + 8) && loadi64(ptr + 8) <= loadi64(ptr + 16) && loadi64(ptr + 16) < (1 << 40)   # the value is a well-formed slice header
+//@   ghostdef wfsum() ==> psum(0) == 0
+//@   loop 1 ghostdef wfsum() && i < h.Len ==> psum(i + 1) == psum(i) + vlen(uint64(@plenccodec.Codec.Size(c.Underlying, h.Data + i * int(c.EltSize), nil))) + @plenccodec.Codec.Size(c.Underlying, h.Data + i * int(c.EltSize), nil)
+//@   loop 1 assume 0 <= psum(i) && psum(i) < (1 << 50)              # the total encoded size fits well inside an int
+//@   loop 1 invariant[C05] 0 <= i && i <= h.Len && (wfsum() ==> size == vlen(uint64(h.Len)) + psum(i))
+//@   loop 1 decreases h.Len - i
+//@   ensures[C05,C02] wfsum() ==> result == vlen(uint64(loadi64(ptr + 8))) + psum(loadi64(ptr + 8))
+
+//@ func plenccodec.WTLengthSliceWrapper.append
+//@   safety C05 C11
+//@   assigns nothing
+//@   assume 0 <= loadi64(ptr + 8) && loadi64(ptr + 8) <= loadi64(ptr + 16) && loadi64(ptr + 16) < (1 << 40)   # the value is a well-formed slice header
+//@   ghostdef wfsum() ==> psum(0) == 0
+//@   loop 1 ghostdef wfsum() && i < h.Len ==> psum(i + 1) == psum(i) + vlen(uint64(@plenccodec.Codec.Size(c.Underlying, h.Data + i * int(c.EltSize), nil))) + @plenccodec.Codec.Size(c.Underlying, h.Data + i * int(c.EltSize), nil)
+//@   loop 1 assume 0 <= psum(i) && psum(i) < (1 << 50)
+//@   loop 1 invariant[C05] 0 <= i && i <= h.Len && (wfsum() ==> len(data) == len(data0) + vlen(uint64(h.Len)) + psum(i))
+//@   loop 1 invariant[C06,C11] len(data) >= len(data0) + vlen(uint64(h.Len)) && (forall j int :: 0 <= j && j < len(data0) ==> data[j] == data0[j])
+//@   loop 1 invariant[C02] at(data, len(data0), venc(uint64(h.Len)), 10)
+//@   loop 1 decreases h.Len - i
+//@   # every element is written behind its own size, element i taken from h.Data + i*EltSize, with no tag
+//@   loop 1 step[C02,C05] called_Codec_Append && called_AppendVarUint && call_Codec_Append_arg0 == c.Underlying && call_Codec_Append_arg2 == h.Data + head_i * int(c.BaseSliceWrapper.EltSize) && len(call_Codec_Append_arg3) == 0 && call_AppendVarUint_arg1 == uint64(@plenccodec.Codec.Size(c.BaseSliceWrapper.Underlying, h.Data + head_i * int(c.BaseSliceWrapper.EltSize), nil))
+//@   ensures[C05] wfsum() ==> len(result) == len(data) + vlen(uint64(loadi64(ptr + 8))) + psum(loadi64(ptr + 8))
+//@   ensures[C02] at(result, len(data), venc(uint64(loadi64(ptr + 8))), 10)          # the body starts with the element count
+//@   ensures[C06,C11] len(result) >= len(data) && (forall j int :: 0 <= j && j < len(data) ==> result[j] == old(data[j]))
+
+//@ func plenccodec.WTLengthSliceWrapper.Size
+//@   safety C05
+//@   assigns nothing
+//@   assume 0 <= loadi64(ptr + 8) && loadi64(ptr + 8) <= loadi64(ptr + 16) && loadi64(ptr + 16) < (1 << 40)
+//@   ensures[C05] wfsum() ==> result == len(tag) + vlen(uint64(loadi64(ptr + 8))) + psum(loadi64(ptr + 8))
+
+//@ func plenccodec.WTLengthSliceWrapper.Append
+//@   safety C05 C11
+//@   assigns nothing
+//@   assume 0 <= loadi64(ptr + 8) && loadi64(ptr + 8) <= loadi64(ptr + 16) && loadi64(ptr + 16) < (1 << 40)
+//@   ensures[C05] wfsum() ==> len(result) == len(data) + @Size(c, ptr, tag)              # the codec law: Size is the number of bytes Append adds
+//@   ensures[C02] len(tag) <= 16 ==> at(result, len(data), bytes(tag), 16) && at(result, len(data) + len(tag), venc(uint64(loadi64(ptr + 8))), 10)      # the tag, then the element count
+//@   ensures[C06,C11] len(result) >= len(data) && (forall j int :: 0 <= j && j < len(data) ==> result[j] == old(data[j]))
